@@ -460,6 +460,9 @@ func checkShard(propV, tierV, shard string) *checkAcc {
 				case len(hn.Props) == 0:
 					acc.Assumed["contract of "+x+" is assumed here: its harness "+hn.Name+" is not yet discharged under any property"] = true
 				}
+				for _, tc := range hn.trustedCases() {
+					acc.Assumed["contract of "+x+" has a TRUSTED (unverified) case: "+tc] = true
+				}
 			}
 		}
 		acc.Warnings = append(acc.Warnings, res.Warnings...)
